@@ -6,6 +6,8 @@
     jsonb             C06  generated documents via ParseJSONB / DecodeType(3802)
     numeric_malformed C10  corrupted numerics through the four entry points (ok / PANIC)
     jsonb_malformed   C10  corrupted documents through ParseJSONB / DecodeType(3802) (ok / PANIC)
+    numeric_raw       C05  the inputs of numeric_malformed, value-level model = implementation (spec silent)
+    jsonb_raw         C06  the inputs of jsonb_malformed, value-level model = implementation (spec silent)
     jsonb_alias       C10  hostile HAS_OFF end offset 0: k aliasing children per level, nested (A35)
 
   Canonical text of a decoded value: `~` nil/null, `T`/`F`, `s<hex>` string, `[a,b]`, `{<hexkey>:v,…}` sorted by key,
@@ -239,9 +241,9 @@ def malformedEval (args : List String) : String :=
   | via :: blob :: _ => malformedModel via.toNat! (unhex blob)
   | _ => "bad-args"
 
-def numericMalformedGen (seed idx _size : Nat) : Case :=
+def numericMalformedBlob (seed idx : Nat) : Nat × Bytes :=
   let via := idx % 4
-  let blob : Bytes := ((do
+  (via, ((do
     let n ← Gen.genNumeric
     let long ← Gen.prob 1 3
     let p := Spec.encNumeric (Spec.formOf n long) n
@@ -249,8 +251,14 @@ def numericMalformedGen (seed idx _size : Nat) : Case :=
     match ← Gen.below 6 with
     | 0 => Gen.bytes (← Gen.edgy 0 24)                       -- pure random
     | 1 => return base.take (← Gen.edgy 0 base.length)       -- every truncation
-    | _ => Gen.mutate [(0, 2), (0, 4), (2, 2), (4, 4), (8, 4), (12, 4), (12, 1), (16, 4)] 4 base)).run' (Prng.ofSeed seed idx)
-  { tags := [s!"via={via}", s!"len<{(blob.length / 8 + 1) * 8}"], model := malformedModel via blob, spec := "ok",
+    | _ => Gen.mutate [(0, 2), (0, 4), (2, 2), (4, 4), (8, 4), (12, 4), (12, 1), (16, 4)] 4 base)).run' (Prng.ofSeed seed idx))
+
+def lenTag (n : Nat) : String :=
+  if n < 8 then "len<8" else if n < 64 then "len<64" else if n < 1024 then "len<1K" else "len>=1K"
+
+def numericMalformedGen (seed idx _size : Nat) : Case :=
+  let (via, blob) := numericMalformedBlob seed idx
+  { tags := [s!"via={via}", lenTag blob.length], model := malformedModel via blob, spec := "ok",
     args := [toString via, hexRle blob] }
 
 def numericMalformed : Family :=
@@ -263,9 +271,9 @@ def craftedEntry (len : Nat) : Gen Nat := do
   let ho ← Gen.bool
   return Spec.mkEntry ty ho v
 
-def jsonbMalformedGen (seed idx size : Nat) : Case :=
+def jsonbMalformedBlob (seed idx size : Nat) : Nat × Bytes :=
   let via := 2 + idx % 2
-  let blob : Bytes := ((do
+  (via, ((do
     let depth ← Gen.oneOf [0, 1, 2, 3]
     let j ← Gen.genJson depth size
     let base := Spec.encJsonb j
@@ -282,12 +290,46 @@ def jsonbMalformedGen (seed idx size : Nat) : Case :=
       let c ← Gen.oneOf [0, 1, 2, 10000, 10001, 0x0FFFFFFF, (n - 4) / 4, (n - 4) / 4 + 1, (n - 4) / 8, (n - 4) / 8 + 1]
       let fl ← Gen.oneOf [0x20000000, 0x40000000, 0x50000000, 0x60000000, 0x70000000, 0, 0x10000000, 0xF0000000]
       return Gen.setAt base 0 (le 4 (c + fl))
-    | _ => Gen.mutate fields 4 base)).run' (Prng.ofSeed seed idx)
-  { tags := [s!"via={via}", (if blob.length < 64 then "len<64" else if blob.length < 1024 then "len<1K" else "len>=1K")],
-    model := malformedModel via blob, spec := "ok", args := [toString via, hexRle blob] }
+    | _ => Gen.mutate fields 4 base)).run' (Prng.ofSeed seed idx))
+
+def jsonbMalformedGen (seed idx size : Nat) : Case :=
+  let (via, blob) := jsonbMalformedBlob seed idx size
+  { tags := [s!"via={via}", lenTag blob.length], model := malformedModel via blob, spec := "ok",
+    args := [toString via, hexRle blob] }
 
 def jsonbMalformed : Family :=
   { name := "jsonb_malformed", gen := jsonbMalformedGen, eval := malformedEval }
+
+/-! ### value-level correspondence on malformed input: the spec is silent, model and implementation must agree -/
+
+def rawModel (via : Nat) (blob : Bytes) : M Spec.JView :=
+  match via with
+  | 0 => (Model.decodeNumeric blob).map fun r => (Model.JV.ofNum r).toView
+  | 1 => (Model.decodeTypeNumeric blob).map fun r => (Model.JV.ofNum r).toView
+  | 2 => jsonbModel 0 blob
+  | _ => jsonbModel 1 blob
+
+def rawCase (via : Nat) (blob : Bytes) : Case :=
+  let m := rawModel via blob
+  let hints := match m with | .ok v => hintsOf v | .error _ => "-"
+  let kind := match m with
+    | .ok .null => "res=nil" | .ok (.str _) => "res=str" | .ok (.num _) => "res=num"
+    | .ok _ => "res=other" | .error _ => "res=fault"
+  { tags := [s!"via={via}", kind] ++ (match m with | .ok .null => [] | _ => ["nt"]),
+    model := showM showView m, spec := "-", args := [toString via, hexRle blob, hints] }
+
+def rawEval (args : List String) : String :=
+  match args with
+  | via :: blob :: _ => showM showView (rawModel via.toNat! (unhex blob))
+  | _ => "bad-args"
+
+def numericRaw : Family :=
+  { name := "numeric_raw", eval := rawEval,
+    gen := fun seed idx _ => let (via, blob) := numericMalformedBlob seed idx; rawCase via blob }
+
+def jsonbRaw : Family :=
+  { name := "jsonb_raw", eval := rawEval,
+    gen := fun seed idx size => let (via, blob) := jsonbMalformedBlob seed idx size; rawCase via blob }
 
 /-- A35: an array whose odd entries are containers of length `L` and whose even entries are HAS_OFF with
 end offset 0, so that every odd entry starts at offset 0 again: `k` children alias the same bytes.
